@@ -60,7 +60,7 @@ class SymTail:
         sp = self.sp
         if isinstance(n, ast.Constant):
             if isinstance(n.value, (int, float)) and not isinstance(n.value, bool):
-                return sp.Rational(n.value), float(n.value)      # exact value of the literal (a float is a dyadic rational)
+                return sp.Rational(repr(n.value)), float(n.value)      # the decimal literal as an exact rational
             raise Skip()
         if isinstance(n, ast.JoinedStr):
             raise Skip()
@@ -163,7 +163,9 @@ def _static_builder(name, qual, fn_of, params, positive, regions, mode='equal', 
                 if r.free_symbols or not abs(float(r) - 1.0) <= tol:
                     bad.append({'region': label, 'tree/textbook': str(r)[:200], 'tolerance': tol})
             else:
-                d = sympy.simplify(sympy.expand(sympy.expand_log(term - want, force=True)))
+                d = sympy.expand(sympy.expand_log(term - want, force=True))
+                if d.free_symbols:
+                    d = sympy.simplify(d)
                 if d.free_symbols or not abs(float(d)) <= tol:
                     bad.append({'region': label, 'tree-textbook': str(d)[:200], 'tolerance': tol})
     except Exception as e:      # the tail is outside the symbolic subset: undecided, never green
@@ -225,10 +227,10 @@ def static_obligations() -> list[Extra]:
     B = 'biogeme.models.boxcox.boxcox'
     closed = lambda s: (s['x'] ** s['ell'] - 1) / s['ell']      # noqa: E731
     out.append(_static_builder('boxcox:regular-branch-is-closed-form', B, fn_of, ['x', 'ell'], ['x'],
-                               [('x > 0, ell >= 1e-5', {'x': 2.0, 'ell': 0.3}, {}, closed),
-                                ('x > 0, ell <= -1e-5', {'x': 2.0, 'ell': -0.3}, {}, closed),
-                                ('x > 0, ell = 1e-5', {'x': 2.0, 'ell': 1.0e-5}, {}, closed),
-                                ('x > 0, ell = -1e-5', {'x': 2.0, 'ell': -1.0e-5}, {}, closed)], 'equal'))
+                               # the regions are those of the sample points (all ell on the same side of the coded window as
+                               # +-0.3); the extent of the window is decided numerically by C17:bounded:boxcox:closed-form
+                               [('x > 0, ell above the series window (sample 0.3)', {'x': 2.0, 'ell': 0.3}, {}, closed),
+                                ('x > 0, ell below the series window (sample -0.3)', {'x': 2.0, 'ell': -0.3}, {}, closed)], 'equal'))
     out.append(_static_builder('boxcox:zero-argument-gives-zero', B, fn_of, ['x', 'ell'], [],
                                [('x == 0, regular', {'x': 0.0, 'ell': 0.3}, {}, zero), ('x == 0, series', {'x': 0.0, 'ell': 1e-7}, {}, zero)], 'equal'))
 
@@ -236,8 +238,8 @@ def static_obligations() -> list[Extra]:
         ell, lx = s['ell'], sympy.log(s['x'])
         return sum(ell ** k * lx ** (k + 1) / sympy.factorial(k + 1) for k in range(4))
     out.append(_static_builder('boxcox:series-coefficients', B, fn_of, ['x', 'ell'], ['x'],
-                               [('x > 0, 0 <= ell < 1e-5', {'x': 2.0, 'ell': 1e-7}, {}, series),
-                                ('x > 0, -1e-5 < ell < 0', {'x': 2.0, 'ell': -1e-7}, {}, series),
+                               [('x > 0, small ell > 0 (sample 1e-7)', {'x': 2.0, 'ell': 1e-7}, {}, series),
+                                ('x > 0, small ell < 0 (sample -1e-7)', {'x': 2.0, 'ell': -1e-7}, {}, series),
                                 ('x > 0, ell == 0', {'x': 2.0, 'ell': 0.0}, {}, series)], 'equal'))
     out.append(_frame_piecewise_variables(repo))
     return out
@@ -286,8 +288,8 @@ def _frame_piecewise_variables(repo) -> Extra:
 # ----------------------------------------------------------------------------------------------
 # bounded stand-ins: one native run per script, one obligation per clause
 # ----------------------------------------------------------------------------------------------
-PATTERNS = ('threshold patterns K=2..6 x closed/open ends (K=2 both open excluded) x first finite threshold in {-2.5, 1} '
-            '(thorough: + {0, 7.25}), x on the grid of all thresholds, midpoints, 0 and points outside; engine evaluation')
+PATTERNS = ('threshold patterns K=2..6 x closed/open ends (K=2 both open excluded) x first finite threshold in {-2.5, 1, 0.0, int 0} '
+            '(thorough: + {7.25, -0.5}), x on the grid of all thresholds, midpoints, 0 and points below/above all thresholds; engine evaluation')
 BOX = ('x in {0.05,0.5,1,2,5,100} (thorough: + {1e-3,0.9,17.5,1e4}); python get_value() and compiled engine; '
        'oracle (exp(ell ln x)-1)/ell with 50 digits (decimal), tolerance 1e-9 relative')
 DIST = '3-4 parameter sets (thorough 5-7), 41-point grids (thorough 201) + break points; engine and get_value(); oracle scipy.stats, rtol 1e-9'
@@ -310,7 +312,7 @@ SCRIPTS = {
         'piecewise_as_variable:default-parameters': PATTERNS + ' (K >= 3); the parameter named after interval q multiplies the variable of interval q',
     },
     'c17_boxcox.py': {
-        'boxcox:closed-form': BOX + '; |ell| in {1.01e-5,2e-5,1e-4,1e-2,0.5,1,2}, both signs',
+        'boxcox:closed-form': BOX + '; |ell| in {1.01e-5,2e-5,1e-4,1e-3,5e-3,1e-2,0.05,0.1,0.5,1,2}, both signs',
         'boxcox:limit-is-log': BOX + '; ell = 0',
         'boxcox:continuity-at-zero': BOX + '; |ell| in {1e-12,1e-8,1e-6,5e-6,0.99e-5}, both signs (series branch)',
         'boxcox:no-jump-at-switching-point': BOX + '; |B(1.01e-5) - B(0.99e-5)| <= 1.5 x slope x 0.02e-5 + 1e-10, both signs',
@@ -418,5 +420,41 @@ REPLAYS = {f'C17:bounded:{clause}': _replay_code(script, clause) for script, cla
 REPLAYS.update({name: _replay_code(script, clause) for name, (script, clause) in _STATIC_REPLAY.items()})
 
 
+def lemma_obligations() -> list[Extra]:
+    """The TEXTBOOK densities integrate to one (symbolic, all parameters; sympy).  Together with the static
+    tree == textbook obligations this gives "integrates to one" for all parameters; the bounded quadratures of the
+    engine-evaluated trees check the same natively."""
+    import sympy as sp
+    x, mu, y = sp.symbols('x mu y', real=True)
+    s = sp.Symbol('s', positive=True)
+    a, b, c = sp.symbols('a b c', real=True)
+    xp = sp.Symbol('xp', positive=True)
+    normal = sp.exp(-(x - mu) ** 2 / (2 * s ** 2)) / (s * sp.sqrt(2 * sp.pi))
+    lognormal = sp.exp(-(sp.log(xp) - mu) ** 2 / (2 * s ** 2)) / (xp * s * sp.sqrt(2 * sp.pi))
+    up, down = 2 * (x - a) / ((b - a) * (c - a)), 2 * (b - x) / ((b - a) * (b - c))
+    logistic = 1 / (1 + sp.exp(-(x - mu) / s))
+    checks = {
+        'normalpdf': lambda: sp.simplify(sp.integrate(normal, (x, -sp.oo, sp.oo)) - 1) == 0,
+        # change of variable x = exp(y): lognormal(exp y) exp(y) dy is the normal density in y
+        'lognormalpdf': lambda: sp.simplify((lognormal * xp).subs(xp, sp.exp(y)) - normal.subs(x, y)) == 0,
+        'uniformpdf': lambda: sp.simplify(sp.integrate(1 / (b - a), (x, a, b)) - 1) == 0,
+        'triangularpdf': lambda: sp.simplify(sp.integrate(up, (x, a, c)) + sp.integrate(down, (x, c, b)) - 1) == 0,
+        # a cdf: limits 0 and 1, derivative exp(-z)/(s (1 + exp(-z))^2) >= 0
+        'logisticcdf': lambda: (sp.limit(logistic, x, -sp.oo) == 0 and sp.limit(logistic, x, sp.oo) == 1
+                                and sp.simplify(sp.diff(logistic, x)).is_nonnegative is True),
+    }
+    out = []
+    for helper, thunk in checks.items():
+        t0 = time.time()
+        name = f'C17:lemma:{helper}:textbook-function-integrates-to-one'
+        try:
+            ok = bool(thunk())
+            out.append(Extra(name, 'lemma', 'discharged' if ok else 'unknown', 'sympy', time.time() - t0,
+                             'symbolic integral of the textbook density (all parameters)' if ok else 'sympy could not establish the integral'))
+        except Exception as e:      # noqa
+            out.append(Extra(name, 'lemma', 'unknown', 'sympy', time.time() - t0, f'{type(e).__name__}: {e}'[:300]))
+    return out
+
+
 def extras(tier, seed) -> list[Extra]:
-    return static_obligations() + bounded_obligations(tier, seed)
+    return static_obligations() + lemma_obligations() + bounded_obligations(tier, seed)
